@@ -344,7 +344,25 @@ func seq(n int) []int {
 	return s
 }
 
-func knownClass(h histCase, obs string) string { return "" }
+// A resolution that does not return on an npm universe with aliases is the
+// non-termination recorded under C04 (an alias repeated along a dependency
+// cycle); the generator avoids the shape, and what slips through is counted
+// here rather than reported as a purity violation.
+func knownClass(h histCase, obs string) string {
+	if !strings.Contains(obs, "on a fresh client did not return within") || h.Universe.System != "npm" || !kf.Open("C04", "NPMAliasCycleNonTermination") {
+		return ""
+	}
+	for _, p := range h.Universe.Pkgs {
+		for _, v := range p.Versions {
+			for _, r := range v.Reqs {
+				if strings.Contains(r.Type, "KnownAs ") {
+					return "NPMAliasCycleNonTermination"
+				}
+			}
+		}
+	}
+	return ""
+}
 
 func machine(sys string, concurrentOnly bool) func(*rapid.T) {
 	return func(t *rapid.T) {
